@@ -22,7 +22,8 @@ func init() {
 // one scenario: a configuration and a word of operations
 type c10Config struct {
 	Cred         string   `json:"cred"`
-	Etypes       []int32  `json:"etypes"`
+	Etypes       []int32  `json:"etypes"`    // default_tkt_enctypes (AS requests)
+	TGSEtypes    []int32  `json:"tgsEtypes"` // default_tgs_enctypes (TGS requests)
 	Preauth      bool     `json:"preauth"`
 	Hints        []string `json:"hints"`
 	Forwardable  bool     `json:"forwardable"`
@@ -72,6 +73,10 @@ func cmdC10(args []string) error {
 			Hints: hintOrders[r.Intn(len(hintOrders))], Forwardable: r.Intn(2) == 0, Proxiable: r.Intn(3) == 0, Canonicalize: r.Intn(3) == 0,
 			NoAddresses: r.Intn(3) != 0, Topology: []string{"single", "cross"}[r.Intn(2)], OmitStart: r.Intn(4) == 0, TGSTag25: r.Intn(4) == 0,
 			ReplyEtypeLo: r.Intn(4) == 0, KDCRenewable: r.Intn(2) == 0}
+		c.TGSEtypes = c.Etypes
+		if r.Intn(2) == 0 {
+			c.TGSEtypes = etLists[r.Intn(len(etLists))]
+		}
 		c.TicketLife = []int{3600, 86400, 4, 600}[r.Intn(4)]
 		if r.Intn(2) == 0 {
 			c.Renewable = true
@@ -189,7 +194,7 @@ func runC10(tw *traceWriter, c c10Config, word []string, id int) error {
 		return err
 	}
 	defer k.close()
-	lib := map[string]string{"default_tkt_enctypes": etNames(c.Etypes), "default_tgs_enctypes": etNames(c.Etypes), "permitted_enctypes": etNames(c.Etypes),
+	lib := map[string]string{"default_tkt_enctypes": etNames(c.Etypes), "default_tgs_enctypes": etNames(c.TGSEtypes), "permitted_enctypes": etNames(append(append([]int32{}, c.Etypes...), c.TGSEtypes...)),
 		"udp_preference_limit": "1", "noaddresses": fmt.Sprint(c.NoAddresses), "forwardable": fmt.Sprint(c.Forwardable), "proxiable": fmt.Sprint(c.Proxiable),
 		"canonicalize": fmt.Sprint(c.Canonicalize), "ticket_lifetime": fmt.Sprint(c.TicketLife)}
 	if c.Renewable {
